@@ -914,7 +914,11 @@ def c14(seed, testing, tmp):
     finally:
         pw.db.close()
     before_bytes = hashlib.sha256(open(path, "rb").read()).hexdigest()
-    sq = SqliteStorage(testing=testing)      # default path, new file: migration runs
+    try:
+        sq = SqliteStorage(testing=testing)      # default path, new file: migration runs
+    except Exception as e:                       # the store was not created: nothing of the legacy database is in it
+        return [f"creating the default sqlite store beside the legacy database raised {type(e).__name__}: {e}"], \
+            before_bytes == hashlib.sha256(open(path, "rb").read()).hexdigest()
     try:
         got = sq.buckets()
         if set(got.keys()) != set(expect.keys()):
